@@ -10,7 +10,7 @@ RULE = ('random histories of 2-5 connections over two permission tables: per-con
         'pause/resume-writing and clock ticks; non-trivial = at least one PUBLISH was delivered; distinct by event list. '
         'Compared with the Coq model on aspects %s; frame-normalised synchronous-store histories (one frame per read, or a read of several permitted frames) are '
         'also judged by harness/judge.py')
-PLAN = [(100, 2500, dict(profile='hostile'), False), (100, 2500, dict(profile='hostile', chunking='frames'), True), (50, 1000, dict(profile='mixed'), False)]
+PLAN = [(20, 300, dict(scenario='reauth_stale'), True), (100, 2500, dict(profile='hostile'), False), (100, 2500, dict(profile='hostile', chunking='frames'), True), (50, 1000, dict(profile='mixed'), False)]
 
 
 def run(ctx, res):
